@@ -131,10 +131,11 @@ def _collect(sub, n, sd):
             return
         except Failure as f:
             sig, tag = _sig(sub, case, f)
-            b = stats.buckets.get(sig)
+            bkey = sub.name + '::' + sig
+            b = stats.buckets.get(bkey)
             pk = pickle.dumps(case, protocol=4)
             if b is None:
-                stats.buckets[sig] = dict(count=1, tag=tag, sub=sub.name, pickle=pk, kind=f.kind,
+                stats.buckets[bkey] = dict(count=1, tag=tag, sub=sub.name, sig=sig, pickle=pk, kind=f.kind,
                                           detail=f.detail[:2000], where=f.where, seed=sd)
             else:
                 b['count'] += 1
@@ -328,7 +329,8 @@ def run_property(mod, tier, sd, replay=None, only=None):
         return 2
 
     subs_by_name = {s.name: s for s in subs}
-    for sig, b in sorted(total.buckets.items()):
+    for bkey, b in sorted(total.buckets.items()):
+        sig = b['sig']
         if b['tag'] and b['tag'] in known:
             known_hit[b['tag']] = known_hit.get(b['tag'], 0) + b['count']
             continue
